@@ -19,6 +19,7 @@ from .superpositioncurrent import SuperpositionCurrent
 from .voltage import voltage
 from .current import current
 from .opts import Opts
+from .printing import netlist_str
 from .node import DummyNode
 from .valueparser import value_parser
 import lcapy
@@ -196,7 +197,10 @@ class Cpt(ImmittanceMixin):
         except AttributeError:
             pass
 
-        string = str(value)
+        if isinstance(value, sym.Basic):
+            string = netlist_str(value)
+        else:
+            string = str(value)
 
         if string.startswith('{'):
             return string
